@@ -55,54 +55,72 @@ register(NUMBA, "_group_by_reduce", "generic,indexer=positions",
           "ensures": ["forall(k, 0, len(target), same(result0[k], FA(k, len(indexer))) and result1[k] == FC(k, len(indexer)))"]},
          specs=GBR_SPECS, props=("C01", "C04", "C05", "C06"))
 
-# ----------------------------------------------------------------------------- _find_nth (forward)
+# ----------------------------------------------------------------------------- _find_nth (forward: n >= 0, backward: n < 0; mask / no mask)
+# Cnt(k, t): number of accepted rows (key == k and selected) of group k among the first t VISITED rows; row(t) = t forward, len-1-t backward.
+# "r is the m-th accepted row of k in visit order"  <=>  accepted(r) and Cnt(k, visit(r)) == m,  visit(r) = r forward, len-1-r backward.
 Cnt = z3.Function("Cnt", I, I, I)
-def _nth_contract(masked):
-    sel = "mask[_it0]" if masked else "True"
-    selr = lambda r: f"mask[{r}]" if masked else "True"
+def _nth_contract(masked, forward):
+    L = "len(group_key)"
+    row = "_it0" if forward else f"({L} - 1 - _it0)"
+    visit = (lambda r: r) if forward else (lambda r: f"({L} - 1 - {r})")
+    selr = (lambda r: f"mask[{r}]") if masked else (lambda r: "True")
+    visited = (lambda r: f"0 <= {r} and {r} < _it0") if forward else (lambda r: f"{L} - _it0 <= {r} and {r} < {L}")
+    nfinal = "n" if forward else "(-old(n) - 1)"
     return {
-        "requires": ["n >= 0", "ngroups >= 0", "forall(r, 0, len(group_key), group_key[r] < ngroups)", "forall(k, 0, ngroups, Cnt(k, 0) == 0)"]
-                    + (["len(mask) == len(group_key)"] if masked else []),
+        "requires": ["n >= 0" if forward else "n < 0", "ngroups >= 0", f"forall(r, 0, {L}, group_key[r] < ngroups)", "forall(k, 0, ngroups, Cnt(k, 0) == 0)"]
+                    + ([f"len(mask) == {L}"] if masked else []),
         "frozen": ["group_key"] + (["mask"] if masked else []), "nonneg_index": ["out", "seen"],
         "loops": {0: {"iter": "rng", "invariant": [
-            f"forall(k, 0, ngroups, seen[k] == Cnt(k, _it0) and Cnt(k, _it0) >= 0 and ((out[k] == -1 and Cnt(k, _it0) <= n) or (0 <= out[k] and out[k] < _it0 and group_key[out[k]] == k and {selr('out[k]')} and Cnt(k, out[k]) == n and Cnt(k, _it0) > n)))"],
-            "unfold": [f"forall(k, 0, ngroups, Cnt(k, _it0 + 1) == Cnt(k, _it0) + (1 if (group_key[_it0] == k and {sel}) else 0))"]}},
-        "ensures": [f"forall(k, 0, ngroups, (result[k] == -1 and Cnt(k, len(group_key)) <= n) or (0 <= result[k] and result[k] < len(group_key) and group_key[result[k]] == k and {selr('result[k]')} and Cnt(k, result[k]) == n))"]}
+            "n >= 0",
+            f"forall(k, 0, ngroups, seen[k] == Cnt(k, _it0) and Cnt(k, _it0) >= 0 and ((out[k] == -1 and Cnt(k, _it0) <= n) or ({visited('out[k]')} and group_key[out[k]] == k and {selr('out[k]')} and Cnt(k, {visit('out[k]')}) == n and Cnt(k, _it0) > n)))"]
+            + ([] if forward else ["n == -old(n) - 1"]),
+            "unfold": [f"forall(k, 0, ngroups, Cnt(k, _it0 + 1) == Cnt(k, _it0) + (1 if (group_key[{row}] == k and {selr(row)}) else 0))"]}},
+        "ensures": [f"forall(k, 0, ngroups, (result[k] == -1 and Cnt(k, {L}) <= {nfinal}) or (0 <= result[k] and result[k] < {L} and group_key[result[k]] == k and {selr('result[k]')} and Cnt(k, {visit('result[k]')}) == {nfinal}))"]}
 for _m in (False, True):
-    register(NUMBA, "_find_nth", f"forward,mask={'bool' if _m else 'None'}",
-             {"group_key": "arr:int:int64", "ngroups": "int", "n": "int", "mask": "arr:bool:bool" if _m else "none"}, _nth_contract(_m), specs={"Cnt": Cnt}, props=("C15", "C05", "C06"))
+    for _fw in (True, False):
+        register(NUMBA, "_find_nth", f"{'forward' if _fw else 'backward'},mask={'bool' if _m else 'None'}",
+                 {"group_key": "arr:int:int64", "ngroups": "int", "n": "int", "mask": "arr:bool:bool" if _m else "none"}, _nth_contract(_m, _fw), specs={"Cnt": Cnt},
+                 props=("C15", "C05", "C06"), lemma_deps=("L-cnt-bound",))
 
-# ----------------------------------------------------------------------------- _cumulative_reduce (generic step, chunked values, mask None)
+# ----------------------------------------------------------------------------- _cumulative_reduce (generic step, chunked values, mask / no mask)
+# FA/FC(k, t): fold of the step function over the ACCEPTED rows (key == k and selected) of group k among the first t rows; LS(k, t): last accepted row or -1.
 LS = z3.Function("LS", I, I, I); off = z3.Function("off", I, I); XV = z3.Function("XV", I, V); INIT = z3.Const("INIT", V)
-def _cum_main(m):
+def _cum_main(m, masked):
+    acc = (lambda r: f"mask[{r}]") if masked else (lambda r: "True")
     return [f"forall(r, {m}, len(target), target[r] == INIT())",
             f"forall(k, 0, ngroups, group_last_seen[k] == LS(k, {m}) and group_count[k] == FC(k, {m}) and -1 <= LS(k, {m}) and LS(k, {m}) < {m} and 0 <= FC(k, {m}) and FC(k, {m}) <= {m} and implies(LS(k, {m}) >= 0, target[LS(k, {m})] == FA(k, {m})) and implies(LS(k, {m}) < 0, FA(k, {m}) == INIT()))",
-            f"forall(r, 0, {m}, implies(group_key[r] >= 0, target[r] == FA(group_key[r], r + 1)))",
+            # accepted rows hold the running fold up to and including themselves; masked rows carry the fold of the earlier accepted rows (INIT when there is none)
+            f"forall(r, 0, {m}, implies(group_key[r] >= 0 and {acc('r')}, target[r] == FA(group_key[r], r + 1)))",
             f"forall(r, 0, {m}, implies(group_key[r] < 0, target[r] == INIT()))",
-            f"has_null_key == exists(r, 0, {m}, group_key[r] < 0)"]
-_CUM_UNF = ("forall(k, 0, ngroups, FA(k, i + 2) == (STEP_acc(FA(k, i + 1), XV(i + 1), FC(k, i + 1)) if group_key[i + 1] == k else FA(k, i + 1))"
-            " and FC(k, i + 2) == (STEP_cnt(FA(k, i + 1), XV(i + 1), FC(k, i + 1)) if group_key[i + 1] == k else FC(k, i + 1))"
-            " and LS(k, i + 2) == (i + 1 if group_key[i + 1] == k else LS(k, i + 1)))")
+            f"has_null_key == exists(r, 0, {m}, group_key[r] < 0)"] + \
+           ([f"forall(r, 0, {m}, implies(group_key[r] >= 0 and not mask[r], target[r] == FA(group_key[r], r)))"] if masked else [])
+def _cum_unf(masked):
+    a = "group_key[i + 1] == k and mask[i + 1]" if masked else "group_key[i + 1] == k"
+    return (f"forall(k, 0, ngroups, FA(k, i + 2) == (STEP_acc(FA(k, i + 1), XV(i + 1), FC(k, i + 1)) if {a} else FA(k, i + 1))"
+            f" and FC(k, i + 2) == (STEP_cnt(FA(k, i + 1), XV(i + 1), FC(k, i + 1)) if {a} else FC(k, i + 1))"
+            f" and LS(k, i + 2) == (i + 1 if {a} else LS(k, i + 1)))")
 _CHUNK_REQ = ["off(0) == 0", "off(len(values)) == len(group_key)",
               "forall(c, 0, len(values), off(c + 1) == off(c) + clen_values(c) and off(c + 1) <= len(group_key) and off(c) >= 0)"]
 def _late_chunkval(eng): eng.specs["chunkval"] = lambda c, p: z3.Select(eng.specs["chunk_values"](c), p)
 def _step_fact(eng):
     a, v = z3.Consts("a v", V); c = z3.Int("c")
     return [z3.ForAll([a, v, c], z3.And(stepC(a, v, c) >= c, stepC(a, v, c) <= c + 1), patterns=[stepC(a, v, c)])]
-register(NUMBA, "_cumulative_reduce", "generic,chunked,mask=None",
-         {"group_key": "arr:int:int64", "values": "chunks:opaque:V", "reduce_func": "step:STEP", "ngroups": "int", "target": "arr:opaque:V", "mask": "none"},
-         {"requires": ["len(target) == len(group_key)", "len(group_key) < 4294967296", "ngroups >= 0"] + _CHUNK_REQ + [
-              "forall(r, 0, len(group_key), group_key[r] < ngroups)", "forall(r, 0, len(target), target[r] == INIT())",
-              "forall(k, 0, ngroups, FA(k, 0) == INIT() and FC(k, 0) == 0 and LS(k, 0) == -1)",
-              "forall(c, 0, len(values), forall(p, 0, clen_values(c), chunkval(c, p) == XV(off(c) + p)))"],
-          "frozen": ["group_key"], "nonneg_index": ["group_last_seen", "group_count"],
-          "loops": {0: {"iter": "values", "invariant": ["i == off(_it0) - 1", "_it0 <= len(values)"] + _cum_main("(i + 1)")},
-                    1: {"iter": "arr", "invariant": ["i == off(_it0) + _it1 - 1", "_it0 < len(values)", "_it1 <= clen_values(_it0)"] + _cum_main("(i + 1)"),
-                        "unfold": [_CUM_UNF], "lemmas": ["val == XV(i + 1)"]}},
-          "ensures": ["forall(r, 0, len(group_key), implies(group_key[r] >= 0, result0[r] == FA(group_key[r], r + 1)))",
-                      "forall(r, 0, len(group_key), implies(group_key[r] < 0, result0[r] == INIT()))", "result1 == exists(r, 0, len(group_key), group_key[r] < 0)"]},
-         specs={"chunkval": None, "STEP_acc": stepA, "STEP_cnt": stepC, "FA": FA, "FC": FC, "LS": LS, "off": off, "XV": XV, "INIT": lambda: INIT},
-         setup=_late_chunkval, extra_hyps=_step_fact, props=("C08", "C06"))
+for _m in (False, True):
+    register(NUMBA, "_cumulative_reduce", f"generic,chunked,mask={'bool' if _m else 'None'}",
+             {"group_key": "arr:int:int64", "values": "chunks:opaque:V", "reduce_func": "step:STEP", "ngroups": "int", "target": "arr:opaque:V", "mask": "arr:bool:bool" if _m else "none"},
+             {"requires": ["len(target) == len(group_key)", "len(group_key) < 4294967296", "ngroups >= 0"] + (["len(mask) == len(group_key)"] if _m else []) + _CHUNK_REQ + [
+                  "forall(r, 0, len(group_key), group_key[r] < ngroups)", "forall(r, 0, len(target), target[r] == INIT())",
+                  "forall(k, 0, ngroups, FA(k, 0) == INIT() and FC(k, 0) == 0 and LS(k, 0) == -1)",
+                  "forall(c, 0, len(values), forall(p, 0, clen_values(c), chunkval(c, p) == XV(off(c) + p)))"],
+              "frozen": ["group_key"] + (["mask"] if _m else []), "nonneg_index": ["group_last_seen", "group_count"],
+              "loops": {0: {"iter": "values", "invariant": ["i == off(_it0) - 1", "_it0 <= len(values)"] + _cum_main("(i + 1)", _m)},
+                        1: {"iter": "arr", "invariant": ["i == off(_it0) + _it1 - 1", "_it0 < len(values)", "_it1 <= clen_values(_it0)"] + _cum_main("(i + 1)", _m),
+                            "unfold": [_cum_unf(_m)], "lemmas": ["val == XV(i + 1)"]}},
+              "ensures": [f"forall(r, 0, len(group_key), implies(group_key[r] >= 0 and {'mask[r]' if _m else 'True'}, result0[r] == FA(group_key[r], r + 1)))",
+                          "forall(r, 0, len(group_key), implies(group_key[r] < 0, result0[r] == INIT()))", "result1 == exists(r, 0, len(group_key), group_key[r] < 0)"]
+                         + (["forall(r, 0, len(group_key), implies(group_key[r] >= 0 and not mask[r], result0[r] == FA(group_key[r], r)))"] if _m else [])},
+             specs={"chunkval": None, "STEP_acc": stepA, "STEP_cnt": stepC, "FA": FA, "FC": FC, "LS": LS, "off": off, "XV": XV, "INIT": lambda: INIT},
+             setup=_late_chunkval, extra_hyps=_step_fact, props=("C08", "C06", "C05"))
 
 # ----------------------------------------------------------------------------- _rolling_sum_or_mean_1d (float, chunked, mask None, sum)
 HistF = z3.Function("HistF", I, I, F); Pre = z3.Function("Pre", I, I, R); NNc = z3.Function("NNc", I, I, I); XF = z3.Function("XF", I, F)
@@ -110,38 +128,55 @@ ROLL_SPECS = {"Cnt": Cnt, "HistF": HistF, "Pre": Pre, "NNc": NNc, "off": off, "X
               "idx": lambda j, pos, A, w: z3.If(j < pos, A - pos + j, A - pos - w + j), "lo": lambda A, w: z3.If(A - w > 0, A - w, 0), "minw": lambda A, w: z3.If(A < w, A, w),
               "mkfin": lambda r: F.Fin(r), "isnull": lambda f: F.is_NaN(f), "NaN": lambda: F.NaN,
               "nnval": lambda f: z3.If(F.is_NaN(f), z3.RealVal(0), F.val(f)), "nn1": lambda f: z3.If(F.is_NaN(f), 0, 1)}
-_WIN_SUM = "mkfin(Pre(group_key[r], Cnt(group_key[r], r) + 1) - Pre(group_key[r], lo(Cnt(group_key[r], r) + 1, window)))"
-def _rs_main(m):
-    A = f"Cnt(k, {m})"
+# Hist(k, m) = value of the m-th ACCEPTED row (key == k and selected) of group k; Cnt(k, t) = accepted rows of k among the first t rows;
+# Pre / NNc = prefix sums / prefix non-null counts over Hist(k, .).  The window of an accepted row r of group k is Hist(k, lo(A, w) .. A) with A = Cnt(k, r) + 1.
+def _roll_acc(masked): return (lambda r: f"mask[{r}]") if masked else (lambda r: "True")
+def _win(r):
+    k, A = f"group_key[{r}]", f"(Cnt(group_key[{r}], {r}) + 1)"
+    return k, A, f"(NNc({k}, {A}) - NNc({k}, lo({A}, window)))", f"(Pre({k}, {A}) - Pre({k}, lo({A}, window)))"
+def _rs_main(m, masked=False, mean=False):
+    A = f"Cnt(k, {m})"; acc = _roll_acc(masked); k_, A_, nn, sm = _win("r")
+    val = f"mkfin({sm} / {nn})" if mean else f"mkfin({sm})"
     return [f"forall(k, 0, ngroups, {A} >= 0 and {A} <= {m} and 0 <= group_positions[k] and group_positions[k] < window and group_n_seen[k] == minw({A}, window) and implies({A} < window, group_positions[k] == {A}))",
             f"forall(k, 0, ngroups, forall(j, 0, window, implies(idx(j, group_positions[k], {A}, window) >= 0, group_buffers[k, j] == HistF(k, idx(j, group_positions[k], {A}, window))) and implies(idx(j, group_positions[k], {A}, window) < 0, isnull(group_buffers[k, j]))))",
             f"forall(k, 0, ngroups, group_non_null[k] == NNc(k, {A}) - NNc(k, lo({A}, window)) and group_sums[k] == mkfin(Pre(k, {A}) - Pre(k, lo({A}, window))))",
-            f"forall(r, 0, {m}, implies(group_key[r] < 0, isnull(out[r])))",
-            f"forall(r, 0, {m}, implies(group_key[r] >= 0, out[r] == ite(NNc(group_key[r], Cnt(group_key[r], r) + 1) - NNc(group_key[r], lo(Cnt(group_key[r], r) + 1, window)) >= min_periods, {_WIN_SUM}, NaN())))",
+            f"forall(r, 0, {m}, implies(group_key[r] < 0 or not {acc('r')}, isnull(out[r])))",
+            f"forall(r, 0, {m}, implies(group_key[r] >= 0 and {acc('r')}, out[r] == ite({nn} >= min_periods, {val}, NaN())))",
             f"forall(r, {m}, len(out), isnull(out[r]))"]
-_K, _A = "group_key[i + 1]", "Cnt(group_key[i + 1], i + 1)"
-ROLL_UNF = [
-    "forall(k, 0, ngroups, Cnt(k, i + 2) == Cnt(k, i + 1) + (1 if group_key[i + 1] == k else 0))",
-    f"implies({_K} >= 0, HistF({_K}, {_A}) == X(i + 1))",
-    f"implies({_K} >= 0, Pre({_K}, {_A} + 1) == Pre({_K}, {_A}) + nnval(HistF({_K}, {_A})))",
-    f"implies({_K} >= 0, NNc({_K}, {_A} + 1) == NNc({_K}, {_A}) + nn1(HistF({_K}, {_A})))",
-    f"implies({_K} >= 0 and {_A} >= window, Pre({_K}, {_A} - window + 1) == Pre({_K}, {_A} - window) + nnval(HistF({_K}, {_A} - window)))",
-    f"implies({_K} >= 0 and {_A} >= window, NNc({_K}, {_A} - window + 1) == NNc({_K}, {_A} - window) + nn1(HistF({_K}, {_A} - window)))",
-    # L-nncount (proved separately by induction): 0 <= NNc(k,b) - NNc(k,a) <= b - a, instantiated at the old window, the new window and the kept part
-    f"implies({_K} >= 0, 0 <= NNc({_K}, {_A}) - NNc({_K}, lo({_A}, window)) and NNc({_K}, {_A}) - NNc({_K}, lo({_A}, window)) <= {_A} - lo({_A}, window))",
-    f"implies({_K} >= 0, 0 <= NNc({_K}, {_A} + 1) - NNc({_K}, lo({_A} + 1, window)) and NNc({_K}, {_A} + 1) - NNc({_K}, lo({_A} + 1, window)) <= {_A} + 1 - lo({_A} + 1, window))",
-    f"implies({_K} >= 0 and {_A} >= window, 0 <= NNc({_K}, {_A}) - NNc({_K}, {_A} - window + 1) and NNc({_K}, {_A}) - NNc({_K}, {_A} - window + 1) <= window - 1)"]
-register(NUMBA, "_rolling_sum_or_mean_1d", "float,chunked,mask=None,sum",
-         {"group_key": "arr:int:int64", "values": "chunks:float:float64", "ngroups": "int", "window": "int", "min_periods": "none", "mask": "none", "null_value": "float", "want_mean": "const:False"},
-         {"requires": ["window >= 1", "window <= 32767", "ngroups >= 0", "isnull(null_value)"] + _CHUNK_REQ + [
-              "forall(c, 0, len(values), forall(p, 0, clen_values(c), chunkval(c, p) == X(off(c) + p)))",
-              "forall(r, 0, len(group_key), group_key[r] < ngroups)", "forall(k, 0, ngroups, Cnt(k, 0) == 0 and NNc(k, 0) == 0 and Pre(k, 0) == 0)"],
-          "frozen": ["group_key"], "nonneg_index": ["group_sums", "group_buffers", "group_positions", "group_non_null", "group_n_seen"],
-          "loops": {0: {"iter": "values", "invariant": ["i == off(_it0) - 1", "_it0 <= len(values)"] + _rs_main("(i + 1)")},
-                    1: {"iter": "arr", "invariant": ["i == off(_it0) + _it1 - 1", "_it0 < len(values)", "_it1 <= clen_values(_it0)"] + _rs_main("(i + 1)"),
-                        "unfold": ROLL_UNF, "lemmas": ["val == X(i + 1)"]}},
-          "ensures": [s.replace("out[", "result[") for s in _rs_main("len(group_key)")[3:5]]},
-         specs=ROLL_SPECS, setup=_late_chunkval, props=("C09", "C06"))
+def _roll_unf(masked, full=True):
+    K = "group_key[i + 1]"; A = "Cnt(group_key[i + 1], i + 1)"; acc = _roll_acc(masked); a = f"{K} >= 0 and {acc('i + 1')}"
+    u = [f"forall(k, 0, ngroups, Cnt(k, i + 2) == Cnt(k, i + 1) + (1 if (group_key[i + 1] == k and {acc('i + 1')}) else 0))",
+         f"implies({a}, HistF({K}, {A}) == X(i + 1))"]
+    if not full: return u
+    return u + [
+        f"implies({a}, Pre({K}, {A} + 1) == Pre({K}, {A}) + nnval(HistF({K}, {A})))",
+        f"implies({a}, NNc({K}, {A} + 1) == NNc({K}, {A}) + nn1(HistF({K}, {A})))",
+        f"implies({a} and {A} >= window, Pre({K}, {A} - window + 1) == Pre({K}, {A} - window) + nnval(HistF({K}, {A} - window)))",
+        f"implies({a} and {A} >= window, NNc({K}, {A} - window + 1) == NNc({K}, {A} - window) + nn1(HistF({K}, {A} - window)))",
+        # L-nncount (proved separately by induction): 0 <= NNc(k,b) - NNc(k,a) <= b - a, instantiated at the old window, the new window and the kept part
+        f"implies({a}, 0 <= NNc({K}, {A}) - NNc({K}, lo({A}, window)) and NNc({K}, {A}) - NNc({K}, lo({A}, window)) <= {A} - lo({A}, window))",
+        f"implies({a}, 0 <= NNc({K}, {A} + 1) - NNc({K}, lo({A} + 1, window)) and NNc({K}, {A} + 1) - NNc({K}, lo({A} + 1, window)) <= {A} + 1 - lo({A} + 1, window))",
+        f"implies({a} and {A} >= window, 0 <= NNc({K}, {A}) - NNc({K}, {A} - window + 1) and NNc({K}, {A}) - NNc({K}, {A} - window + 1) <= window - 1)"]
+ROLL_UNF = _roll_unf(False)
+def _roll_requires(masked, mp):
+    return ["window >= 1", "window <= 32767", "ngroups >= 0", "isnull(null_value)"] + (["min_periods >= 1"] if mp else []) + (["len(mask) == len(group_key)"] if masked else []) + _CHUNK_REQ + [
+        "forall(c, 0, len(values), forall(p, 0, clen_values(c), chunkval(c, p) == X(off(c) + p)))",
+        "forall(r, 0, len(group_key), group_key[r] < ngroups)", "forall(k, 0, ngroups, Cnt(k, 0) == 0 and NNc(k, 0) == 0 and Pre(k, 0) == 0)"]
+for _mean, _m, _mp in ((False, False, False), (True, False, False), (False, True, True), (True, True, True)):
+    register(NUMBA, "_rolling_sum_or_mean_1d", f"float,chunked,mask={'bool' if _m else 'None'},{'mean' if _mean else 'sum'},min_periods={'int' if _mp else 'None'}",
+             {"group_key": "arr:int:int64", "values": "chunks:float:float64", "ngroups": "int", "window": "int", "min_periods": "int" if _mp else "none", "mask": "arr:bool:bool" if _m else "none",
+              "null_value": "float", "want_mean": f"const:{_mean}"},
+             {"requires": _roll_requires(_m, _mp),
+              "frozen": ["group_key"] + (["mask"] if _m else []), "nonneg_index": ["group_sums", "group_buffers", "group_positions", "group_non_null", "group_n_seen"],
+              # the conjuncts about rows of `out` already written (3 + j, 4 + j) are hypotheses only for their own preservation: nothing else depends on past outputs,
+              # and the mean's quotient inside them would drag non-linear arithmetic into every other obligation
+              "loops": {0: {"iter": "values", "invariant": ["i == off(_it0) - 1", "_it0 <= len(values)", "min_periods >= 1"] + _rs_main("(i + 1)", _m, _mean),
+                            "self_only": {6: [(0, 6), (1, 7)], 7: [(0, 7), (1, 8)]}},
+                        1: {"iter": "arr", "invariant": ["i == off(_it0) + _it1 - 1", "_it0 < len(values)", "_it1 <= clen_values(_it0)", "min_periods >= 1"] + _rs_main("(i + 1)", _m, _mean),
+                            "self_only": {7: [(0, 6), (1, 7)], 8: [(0, 7), (1, 8)]},
+                            "unfold": _roll_unf(_m), "lemmas": ["val == X(i + 1)"]}},
+              "ensures": [x.replace("out[", "result[") for x in _rs_main("len(group_key)", _m, _mean)[3:5]]},
+             specs=ROLL_SPECS, setup=_late_chunkval, props=("C09", "C06", "C05"), lemma_deps=("L-nncount", "L-cnt-bound"))
 
 # ----------------------------------------------------------------------------- min_or_max_and_position
 def _momp_contract(want_max):
@@ -158,25 +193,99 @@ for _kind, _dt in (("float", "float64"), ("int", "int64")):
         register(NUMBA, "min_or_max_and_position", f"{_kind},want_max={_wm}", {"arr": f"arr:{_kind}:{_dt}", "want_max": f"const:{_wm}"}, _momp_contract(_wm),
                  specs={"isnullv": (lambda f: F.is_NaN(f)) if _kind == "float" else (lambda x: x == MIN_INT)}, props=("C09", "C12"))
 
-# ----------------------------------------------------------------------------- emas._ema_grouped
+# ----------------------------------------------------------------------------- EMA kernels (emas.py)
+# Specification (from the statement of C10, as the decayed-sum recursion; L-ema proves recursion == closed-form weighted mean):
+#   per group q:  Nk(q, t), Dk(q, t) = decayed numerator / denominator after the first t rows;  valid(t) = value non-null and selected
+#   row-count decay:  after a row of group q:  N' = beta * (N + [valid] x),  D' = beta * (D + [valid]);   out = (x + N) / (1 + D) at a valid row
+#   time decay:       before a row of group q that has an earlier row:  N, D *= DECAY(t_now - t_prev(q))
+#   invalid rows repeat the group's previous output (LastOut), which is NaN until the group's first valid row; null-key rows hold NaN and touch no state.
 Nk = z3.Function("Nk", I, I, R); Dk = z3.Function("Dk", I, I, R); LastOut = z3.Function("LastOut", I, I, F); OutF = z3.Function("OutF", I, F)
 EMA_SPECS = {"Nk": Nk, "Dk": Dk, "LastOut": LastOut, "OutF": OutF, "fval": lambda f: F.val(f), "mkfin": lambda r: F.Fin(r), "isnan": lambda f: F.is_NaN(f), "NaN": lambda: F.NaN}
-def _ema_contract(keylo):
-    return {"requires": ["len(values) == len(group_key)", "ngroups >= 0", "not isnan(alpha)", "fval(alpha) > 0", "fval(alpha) <= 1",
-                         f"forall(r, 0, len(group_key), group_key[r] < ngroups and group_key[r] >= {keylo})",
+def _ema_contract(masked):
+    valid = "(not isnan(values[_it0])" + (" and mask[_it0])" if masked else ")")
+    return {"requires": ["len(values) == len(group_key)", "ngroups >= 0", "not isnan(alpha)", "fval(alpha) > 0", "fval(alpha) <= 1"] + (["len(mask) == len(group_key)"] if masked else []) + [
+                         # what callers pass: null keys are -1
+                         "forall(r, 0, len(group_key), group_key[r] < ngroups and group_key[r] >= -1)",
                          "forall(k, 0, ngroups, Nk(k, 0) == 0 and Dk(k, 0) == 0 and isnan(LastOut(k, 0)))"],
-            "frozen": ["group_key", "values"], "nonneg_index": ["residuals", "residual_weights", "last_seen"],
+            "frozen": ["group_key", "values"] + (["mask"] if masked else []), "nonneg_index": ["residuals", "residual_weights", "last_seen"],
             "loops": {0: {"iter": "enumerate(zip(group_key, values))",
-                "invariant": ["not isnan(beta)", "fval(beta) == 1 - fval(alpha)",
+                "invariant": ["not isnan(beta)", "fval(beta) == 1 - fval(alpha)", "len(out) == len(group_key)",
                               "forall(q, 0, ngroups, residuals[q] == mkfin(Nk(q, _it0)) and residual_weights[q] == mkfin(Dk(q, _it0)) and last_seen[q] == LastOut(q, _it0) and Dk(q, _it0) >= 0)",
-                              "forall(r, 0, _it0, implies(group_key[r] >= 0, out[r] == OutF(r)))"],
-                "unfold": ["forall(q, 0, ngroups, Nk(q, _it0 + 1) == ite(group_key[_it0] == q, (1 - fval(alpha)) * (Nk(q, _it0) + ite(isnan(values[_it0]), 0, fval(values[_it0]))), Nk(q, _it0))"
-                           " and Dk(q, _it0 + 1) == ite(group_key[_it0] == q, (1 - fval(alpha)) * (Dk(q, _it0) + ite(isnan(values[_it0]), 0, 1)), Dk(q, _it0))"
+                              "forall(r, 0, _it0, implies(group_key[r] >= 0, out[r] == OutF(r)))",
+                              "forall(r, 0, _it0, implies(group_key[r] < 0, isnan(out[r])))"],
+                "unfold": [f"forall(q, 0, ngroups, Nk(q, _it0 + 1) == ite(group_key[_it0] == q, (1 - fval(alpha)) * (Nk(q, _it0) + ite({valid}, fval(values[_it0]), 0)), Nk(q, _it0))"
+                           f" and Dk(q, _it0 + 1) == ite(group_key[_it0] == q, (1 - fval(alpha)) * (Dk(q, _it0) + ite({valid}, 1, 0)), Dk(q, _it0))"
                            " and LastOut(q, _it0 + 1) == ite(group_key[_it0] == q, OutF(_it0), LastOut(q, _it0)))",
-                           "implies(group_key[_it0] >= 0, OutF(_it0) == ite(isnan(values[_it0]), LastOut(group_key[_it0], _it0), mkfin((fval(values[_it0]) + Nk(group_key[_it0], _it0)) / (1 + Dk(group_key[_it0], _it0)))))"]}},
-            "ensures": ["forall(r, 0, len(group_key), implies(group_key[r] >= 0, result[r] == OutF(r)))"]}
-register(EMAS, "_ema_grouped", "float,mask=None,keys>=-1(what callers pass)", {"group_key": "arr:int:int64", "values": "arr:float:float64", "alpha": "float", "ngroups": "int", "mask": "none"},
-         _ema_contract("-1"), specs=EMA_SPECS, props=("C10", "C06"))
+                           f"implies(group_key[_it0] >= 0, OutF(_it0) == ite({valid}, mkfin((fval(values[_it0]) + Nk(group_key[_it0], _it0)) / (1 + Dk(group_key[_it0], _it0))), LastOut(group_key[_it0], _it0)))"]}},
+            "ensures": ["forall(r, 0, len(group_key), implies(group_key[r] >= 0, result[r] == OutF(r)))", "forall(r, 0, len(group_key), implies(group_key[r] < 0, isnan(result[r])))"]}
+for _m in (False, True):
+    register(EMAS, "_ema_grouped", f"float,mask={'bool' if _m else 'None'}", {"group_key": "arr:int:int64", "values": "arr:float:float64", "alpha": "float", "ngroups": "int", "mask": "arr:bool:bool" if _m else "none"},
+             _ema_contract(_m), specs=EMA_SPECS, props=("C10", "C06", "C05"))
+
+# ---- ungrouped, row-count decay.  Leading invalid rows are unconstrained by the statement (the code leaves 0.0 there through out[-1]).
+N1 = z3.Function("N1", I, R); D1 = z3.Function("D1", I, R)
+for _vk, _dt in (("float", "float64"), ("int", "int64")):
+    _valid = (lambda r: f"not isnan(arr[{r}])") if _vk == "float" else (lambda r: "True")
+    _x = (lambda r: f"fval(arr[{r}])") if _vk == "float" else (lambda r: f"arr[{r}]")
+    register(EMAS, "_ema_adjusted", _vk, {"arr": f"arr:{_vk}:{_dt}", "alpha": "float"},
+             {"requires": ["not isnan(alpha)", "fval(alpha) > 0", "fval(alpha) <= 1", "N1(0) == 0 and D1(0) == 0"], "frozen": ["arr"],
+              "var_types": {"residual": "float", "residual_weights": "float"},
+              "loops": {0: {"iter": "enumerate(arr)", "invariant": [
+                  "not isnan(beta)", "fval(beta) == 1 - fval(alpha)", "len(out) == len(arr)", "residual == mkfin(N1(_it0))", "residual_weights == mkfin(D1(_it0))", "D1(_it0) >= 0",
+                  f"forall(r, 0, _it0, implies({_valid('r')}, out[r] == mkfin(({_x('r')} + N1(r)) / (1 + D1(r)))))",
+                  f"forall(r, 1, _it0, implies(not ({_valid('r')}), out[r] == out[r - 1]))"],
+                  "unfold": [f"N1(_it0 + 1) == (1 - fval(alpha)) * (N1(_it0) + ite({_valid('_it0')}, {_x('_it0')}, 0))", f"D1(_it0 + 1) == (1 - fval(alpha)) * (D1(_it0) + ite({_valid('_it0')}, 1, 0))"]}},
+              "ensures": [f"forall(r, 0, len(arr), implies({_valid('r')}, result[r] == mkfin(({_x('r')} + N1(r)) / (1 + D1(r)))))",
+                          f"forall(r, 1, len(arr), implies(not ({_valid('r')}), result[r] == result[r - 1]))"]},
+             specs={"N1": N1, "D1": D1, **{k: v for k, v in EMA_SPECS.items() if k in ("fval", "mkfin", "isnan", "NaN")}}, props=("C10",))
+
+# ---- time decay.  DECAY(dt) is what the code computes: exp(-log(2) * (dt / halflife)); A-exp: EXP(x) > 0 (stated as a hypothesis, listed as an assumption).
+EXPf = z3.Function("EXP", R, R); LOGf = z3.Function("LOG", R, R)
+from pyvc.engine import rdiv as _rdiv
+def _decay(dt): return EXPf(-(LOGf(z3.RealVal(2))) * _rdiv(z3.ToReal(dt), z3.ToReal(z3.Int("halflife"))))
+def _exp_pos(eng):
+    x = z3.Real("x"); return [z3.ForAll([x], EXPf(x) > 0, patterns=[EXPf(x)])]
+TIMED_SPECS = dict(EMA_SPECS); TIMED_SPECS.update({"__exp__": EXPf, "__log__": LOGf, "DECAY": _decay, "LT": z3.Function("LT", I, I, I), "Seen": z3.Function("Seen", I, I, B),
+                                                   "NkD": z3.Function("NkD", I, I, R), "DkD": z3.Function("DkD", I, I, R), "N1": N1, "D1": D1, "N1d": z3.Function("N1d", I, R), "D1d": z3.Function("D1d", I, R)})
+def _ema_timed_contract(masked):
+    valid = "(not isnan(values[_it0])" + (" and mask[_it0])" if masked else ")"); K = "group_key[_it0]"
+    return {"requires": ["len(values) == len(group_key)", "len(times) == len(group_key)", "ngroups >= 0", "halflife >= 1"] + (["len(mask) == len(group_key)"] if masked else []) + [
+                         "forall(r, 0, len(group_key), group_key[r] < ngroups and group_key[r] >= -1)",
+                         "forall(k, 0, ngroups, Nk(k, 0) == 0 and Dk(k, 0) == 0 and isnan(LastOut(k, 0)) and not Seen(k, 0))"],
+            "frozen": ["group_key", "values", "times"] + (["mask"] if masked else []), "nonneg_index": ["residuals", "residual_weights", "last_seen", "last_seen_times", "seen"],
+            "loops": {0: {"iter": "enumerate(zip(group_key, values))",
+                "invariant": ["len(out) == len(group_key)",
+                              "forall(q, 0, ngroups, residuals[q] == mkfin(Nk(q, _it0)) and residual_weights[q] == mkfin(Dk(q, _it0)) and last_seen[q] == LastOut(q, _it0) and Dk(q, _it0) >= 0"
+                              " and implies(Seen(q, _it0), last_seen_times[q] == LT(q, _it0)) and seen[q] == Seen(q, _it0))",
+                              "forall(r, 0, _it0, implies(group_key[r] >= 0, out[r] == OutF(r)))",
+                              "forall(r, 0, _it0, implies(group_key[r] < 0, isnan(out[r])))"],
+                # the decayed state of the row's group just before the row is used: NkD, DkD
+                "unfold": [f"implies({K} >= 0, NkD({K}, _it0) == ite(Seen({K}, _it0), DECAY(times[_it0] - LT({K}, _it0)) * Nk({K}, _it0), Nk({K}, _it0)) and DkD({K}, _it0) == ite(Seen({K}, _it0), DECAY(times[_it0] - LT({K}, _it0)) * Dk({K}, _it0), Dk({K}, _it0)))",
+                           f"forall(q, 0, ngroups, Nk(q, _it0 + 1) == ite({K} == q, NkD(q, _it0) + ite({valid}, fval(values[_it0]), 0), Nk(q, _it0))"
+                           f" and Dk(q, _it0 + 1) == ite({K} == q, DkD(q, _it0) + ite({valid}, 1, 0), Dk(q, _it0))"
+                           f" and LastOut(q, _it0 + 1) == ite({K} == q, OutF(_it0), LastOut(q, _it0)) and Seen(q, _it0 + 1) == (Seen(q, _it0) or {K} == q) and LT(q, _it0 + 1) == ite({K} == q, times[_it0], LT(q, _it0)))",
+                           f"implies({K} >= 0, OutF(_it0) == ite({valid}, mkfin((fval(values[_it0]) + NkD({K}, _it0)) / (1 + DkD({K}, _it0))), LastOut({K}, _it0)))"]}},
+            "ensures": ["forall(r, 0, len(group_key), implies(group_key[r] >= 0, result[r] == OutF(r)))", "forall(r, 0, len(group_key), implies(group_key[r] < 0, isnan(result[r])))"]}
+for _m in (False, True):
+    register(EMAS, "_ema_grouped_timed", f"float,mask={'bool' if _m else 'None'}",
+             {"group_key": "arr:int:int64", "values": "arr:float:float64", "times": "arr:int:int64", "halflife": "int", "ngroups": "int", "mask": "arr:bool:bool" if _m else "none"},
+             _ema_timed_contract(_m), specs=TIMED_SPECS, extra_hyps=_exp_pos, props=("C10", "C06", "C05"))
+
+# ungrouped, time decay:  state before row t (t >= 1) is decayed by DECAY(times[t] - times[t-1]);  row 0 starts the sums
+register(EMAS, "_ema_time_weighted", "float", {"arr": "arr:float:float64", "times": "arr:int:int64", "halflife": "int"},
+         {"requires": ["len(times) == len(arr)", "halflife >= 1", "N1(1) == ite(isnan(arr[0]), 0, fval(arr[0])) and D1(1) == ite(isnan(arr[0]), 0, 1)"], "frozen": ["arr", "times"],
+          "var_types": {"residual": "float", "residual_weights": "float"},
+          "loops": {0: {"iter": "enumerate(arr[1:], 1)", "invariant": [
+              "len(out) == len(arr)", "len(arr) >= 1", "residual == mkfin(N1(1 + _it0))", "residual_weights == mkfin(D1(1 + _it0))", "D1(1 + _it0) >= 0",
+              "implies(not isnan(arr[0]), out[0] == arr[0])",
+              "forall(r, 1, 1 + _it0, implies(not isnan(arr[r]), out[r] == mkfin((fval(arr[r]) + N1d(r)) / (1 + D1d(r)))))",
+              "forall(r, 1, 1 + _it0, implies(isnan(arr[r]), out[r] == out[r - 1]))"],
+              "unfold": ["N1d(1 + _it0) == DECAY(times[1 + _it0] - times[_it0]) * N1(1 + _it0) and D1d(1 + _it0) == DECAY(times[1 + _it0] - times[_it0]) * D1(1 + _it0)",
+                         "N1(2 + _it0) == N1d(1 + _it0) + ite(isnan(arr[1 + _it0]), 0, fval(arr[1 + _it0])) and D1(2 + _it0) == D1d(1 + _it0) + ite(isnan(arr[1 + _it0]), 0, 1)"]}},
+          "ensures": ["implies(len(arr) >= 1 and not isnan(arr[0]), result[0] == arr[0])",
+                      "forall(r, 1, len(arr), implies(not isnan(arr[r]), result[r] == mkfin((fval(arr[r]) + N1d(r)) / (1 + D1d(r)))))",
+                      "forall(r, 1, len(arr), implies(isnan(arr[r]), result[r] == result[r - 1]))"]},
+         specs=TIMED_SPECS, extra_hyps=_exp_pos, props=("C10",))
 
 # ----------------------------------------------------------------------------- factorization
 CODES0 = z3.Function("CODES0", I, I, I); WT = z3.Function("WT", I, I); WS2 = z3.Function("WS2", I, I, I); RowNull = z3.Function("RowNull", I, B); Mc = z3.Int("M"); Tlen = z3.Int("T")
@@ -211,6 +320,43 @@ register(FACT, "_combine_factorizations", "array tracker", {"codes": "arr2:int:i
                       "forall(a, 0, len(codes), forall(c, 0, len(codes), implies(not RowNull(a) and not RowNull(c), (result0[a] == result0[c]) == forall(l, 0, M(), CODES0(a, l) == CODES0(c, l)))))"]},
          specs=FSPECS, callees=_WCS, extra_hyps=lambda eng: [z3.Int("len1_codes") == Mc], props=("C02", "C06"))
 
+# ----------------------------------------------------------------------------- _monotonic_factorization (sorted-prefix fast path; chunked keys; float with NaN / int)
+# XM(j): the j-th key of the flattened chunk list; offm(c): first flat index of chunk c (chunks may be empty).
+offm = z3.Function("offm", I, I)
+def _late_chunkarr(eng): eng.specs["chunkvalm"] = lambda c, p: z3.Select(eng.specs["chunk_arr_list"](c), p)
+def _mono_contract(kind):
+    NCH = "len(arr_list)"
+    inv_for = ["0 <= arr_num and arr_num < len(arr_list)", "0 <= cur_arr_pos and cur_arr_pos < clen_arr_list(arr_num)", "offm(arr_num) + cur_arr_pos == _it1",
+               "1 <= n_labels and n_labels <= _it1 + 1", "prev == XM(_it1)", "len(codes) == total_len and len(labels) == total_len",
+               "forall(j, 0, _it1 + 1, not isnullm(XM(j)))", "forall(j, 1, _it1 + 1, ge(XM(j), XM(j - 1)))",
+               "forall(a, 0, n_labels - 1, lt(labels[a], labels[a + 1]))", "labels[n_labels - 1] == XM(_it1)",
+               "forall(j, 0, _it1 + 1, 0 <= codes[j] and codes[j] < n_labels and labels[codes[j]] == XM(j))", "codes[_it1] == n_labels - 1"]
+    return {"requires": ["total_len >= 0", "total_len <= 4294967296", f"{NCH} >= 1", "offm(0) == 0", f"offm({NCH}) == total_len",
+                         f"forall(c, 0, {NCH}, offm(c + 1) == offm(c) + clen_arr_list(c))",
+                         # L-ps-mono (proved separately): offsets of non-negative lengths are monotone
+                         f"forall(c, 0, {NCH} + 1, forall(d, c, {NCH} + 1, offm(c) <= offm(d)))",
+                         f"forall(c, 0, {NCH}, forall(p, 0, clen_arr_list(c), chunkvalm(c, p) == XM(offm(c) + p)))"],
+            "loops": {0: {"iter": "len(arr) == 0", "rebind": {"arr": "arr_list[arr_num]"}, "decreases": f"{NCH} - arr_num",
+                          "invariant": [f"0 <= arr_num and arr_num < {NCH}", "offm(arr_num) == 0", "total_len >= 1"]},
+                      1: {"iter": "range(1, total_len)", "rebind": {"arr": "arr_list[arr_num]"}, "invariant": inv_for},
+                      2: {"iter": "cur_arr_pos == len(arr)", "rebind": {"arr": "arr_list[arr_num]"}, "decreases": f"{NCH} - arr_num",
+                          "invariant": [f"0 <= arr_num and arr_num < {NCH}", "0 <= cur_arr_pos and cur_arr_pos <= clen_arr_list(arr_num)", "offm(arr_num) + cur_arr_pos == i", "i < total_len"]}},
+            "ensures": ["0 <= result0 and result0 <= total_len",
+                        "forall(j, 0, result0, not isnullm(XM(j)))", "forall(j, 1, result0, ge(XM(j), XM(j - 1)))",
+                        # the cut is the first null or descent (or the end)
+                        "implies(result0 < total_len and result0 >= 1, not ge(XM(result0), XM(result0 - 1)))", "implies(result0 == 0 and total_len >= 1, isnullm(XM(0)))",
+                        # the label at a row's code equals the row's key; labels strictly increasing (hence pairwise distinct, and equal code <=> equal key)
+                        "forall(j, 0, result0, 0 <= result1[j] and result1[j] < len(result2) and result2[result1[j]] == XM(j))",
+                        "forall(a, 0, len(result2) - 1, lt(result2[a], result2[a + 1]))"]}
+for _vk, _dt in (("float", "float64"), ("int", "int64")):
+    _sp = {"offm": offm, "chunkvalm": None, "XM": z3.Function(f"XM_{_vk}", I, F if _vk == "float" else I)}
+    if _vk == "float":
+        _sp.update({"isnullm": lambda f: F.is_NaN(f), "ge": lambda a, b: f_cmp(lambda x, y: x >= y, a, b), "lt": lambda a, b: f_cmp(lambda x, y: x < y, a, b)})
+    else:
+        _sp.update({"isnullm": lambda x: z3.BoolVal(False), "ge": lambda a, b: a >= b, "lt": lambda a, b: a < b})
+    register(FACT, "_monotonic_factorization", f"{_vk},chunked", {"arr_list": f"chunks:{_vk}:{_dt}", "total_len": "int"}, _mono_contract(_vk), specs=_sp, setup=_late_chunkarr,
+             props=("C02", "C06", "C03"), lemma_deps=("L-ps-mono",))
+
 # ----------------------------------------------------------------------------- reduce_array_pair (generic reducer)
 for _cn, _ct, _cexpr in (("counts=None", "none", "1"), ("counts=array", "arr:int:int64", "counts[j]")):
     register(NUMBA, "reduce_array_pair", f"generic,{_cn}", {"x": "arr:opaque:V", "y": "arr:opaque:V", "reducer": "step:STEP", "counts": _ct},
@@ -220,37 +366,60 @@ for _cn, _ct, _cexpr in (("counts=None", "none", "1"), ("counts=array", "arr:int
               "ensures": ["len(result) == len(x)", f"forall(j, 0, len(x), result[j] == STEP_acc(x[j], y[j], {_cexpr}))"]},
              specs={"STEP_acc": stepA, "STEP_cnt": stepC}, props=("C03", "C04"))
 
-# ----------------------------------------------------------------------------- _rolling_shift_or_diff_1d (float, chunked, mask None, shift)
-def _sh_main(m):
-    A = f"Cnt(k, {m})"
+# ----------------------------------------------------------------------------- _rolling_shift_or_diff_1d (shift on an OPAQUE value sort, diff on floats; mask / no mask)
+# shift: the value sort is opaque (no arithmetic exists on it), so the postcondition "out[r] is Hist(k, A - w)" says the result is exactly an input element
+# for every value type - this is the exactness clause of C09/C12 for shifted values.
+HistV = z3.Function("HistV", I, I, V); XVv = z3.Function("XVv", I, V); VNULL = z3.Function("VNULL", V, B); NULLV = z3.Const("NULLV", V)
+def _sh_main(m, masked, shift):
+    A = f"Cnt(k, {m})"; acc = _roll_acc(masked); H = "HistV" if shift else "HistF"
+    prev = f"{H}(group_key[r], Cnt(group_key[r], r) - window)"
+    val = prev if shift else f"fsub(X(r), {prev})"
     return [f"forall(k, 0, ngroups, {A} >= 0 and {A} <= {m} and 0 <= group_buffer_pos[k] and group_buffer_pos[k] < window and group_counts[k] == minw({A}, window) and implies({A} < window, group_buffer_pos[k] == {A}))",
-            f"forall(k, 0, ngroups, forall(j, 0, window, implies(idx(j, group_buffer_pos[k], {A}, window) >= 0, group_buffers[k, j] == HistF(k, idx(j, group_buffer_pos[k], {A}, window)))))",
-            f"forall(r, 0, {m}, implies(group_key[r] < 0, isnull(out[r])))",
-            f"forall(r, 0, {m}, implies(group_key[r] >= 0, out[r] == ite(Cnt(group_key[r], r) >= window, HistF(group_key[r], Cnt(group_key[r], r) - window), NaN())))",
-            f"forall(r, {m}, len(out), isnull(out[r]))"]
-register(NUMBA, "_rolling_shift_or_diff_1d", "float,chunked,mask=None,shift",
-         {"group_key": "arr:int:int64", "values": "chunks:float:float64", "ngroups": "int", "window": "int", "mask": "none", "null_value": "float", "want_shift": "const:True"},
-         {"requires": ["window >= 1", "window <= 32767", "ngroups >= 0", "isnull(null_value)"] + _CHUNK_REQ + [
-              "forall(c, 0, len(values), forall(p, 0, clen_values(c), chunkval(c, p) == X(off(c) + p)))",
-              "forall(r, 0, len(group_key), group_key[r] < ngroups)", "forall(k, 0, ngroups, Cnt(k, 0) == 0)"],
-          "frozen": ["group_key"], "nonneg_index": ["group_buffers", "group_buffer_pos", "group_counts"],
-          "loops": {0: {"iter": "values", "invariant": ["i == off(_it0) - 1", "_it0 <= len(values)"] + _sh_main("(i + 1)")},
-                    1: {"iter": "arr", "invariant": ["i == off(_it0) + _it1 - 1", "_it0 < len(values)", "_it1 <= clen_values(_it0)"] + _sh_main("(i + 1)"),
-                        "unfold": ROLL_UNF[:2], "lemmas": ["val == X(i + 1)"]}},
-          "ensures": [s.replace("out[", "result[") for s in _sh_main("len(group_key)")[2:4]]},
-         specs=ROLL_SPECS, setup=_late_chunkval, props=("C09", "C06", "C12"))
+            f"forall(k, 0, ngroups, forall(j, 0, window, implies(idx(j, group_buffer_pos[k], {A}, window) >= 0, group_buffers[k, j] == {H}(k, idx(j, group_buffer_pos[k], {A}, window)))))",
+            f"forall(r, 0, {m}, implies(group_key[r] < 0 or not {acc('r')}, out[r] == null_value))",
+            f"forall(r, 0, {m}, implies(group_key[r] >= 0 and {acc('r')}, out[r] == ite(Cnt(group_key[r], r) >= window, {val}, null_value)))",
+            f"forall(r, {m}, len(out), out[r] == null_value)"]
+for _shift in (True, False):
+    for _m in (False, True):
+        _H = "HistV" if _shift else "HistF"; _acc = _roll_acc(_m)
+        _unf = [f"forall(k, 0, ngroups, Cnt(k, i + 2) == Cnt(k, i + 1) + (1 if (group_key[i + 1] == k and {_acc('i + 1')}) else 0))",
+                f"implies(group_key[i + 1] >= 0 and {_acc('i + 1')}, {_H}(group_key[i + 1], Cnt(group_key[i + 1], i + 1)) == X(i + 1))"]
+        _specs = dict(ROLL_SPECS); _specs.update({"HistV": HistV, "fsub": lambda a, b: f_bin(lambda x, y: x - y, a, b)})
+        if _shift: _specs.update({"X": XVv, "__vnull__": VNULL})
+        register(NUMBA, "_rolling_shift_or_diff_1d", f"{'opaque' if _shift else 'float'},chunked,mask={'bool' if _m else 'None'},{'shift' if _shift else 'diff'}",
+                 {"group_key": "arr:int:int64", "values": "chunks:opaque:V" if _shift else "chunks:float:float64", "ngroups": "int", "window": "int", "mask": "arr:bool:bool" if _m else "none",
+                  "null_value": "opaque" if _shift else "float", "want_shift": f"const:{_shift}"},
+                 {"requires": ["window >= 1", "window <= 32767", "ngroups >= 0"] + ([] if _shift else ["isnull(null_value)"]) + (["len(mask) == len(group_key)"] if _m else []) + _CHUNK_REQ + [
+                      "forall(c, 0, len(values), forall(p, 0, clen_values(c), chunkval(c, p) == X(off(c) + p)))",
+                      "forall(r, 0, len(group_key), group_key[r] < ngroups)", "forall(k, 0, ngroups, Cnt(k, 0) == 0)"],
+                  "frozen": ["group_key"] + (["mask"] if _m else []), "nonneg_index": ["group_buffers", "group_buffer_pos", "group_counts"],
+                  "loops": {0: {"iter": "values", "invariant": ["i == off(_it0) - 1", "_it0 <= len(values)"] + _sh_main("(i + 1)", _m, _shift)},
+                            1: {"iter": "arr", "invariant": ["i == off(_it0) + _it1 - 1", "_it0 < len(values)", "_it1 <= clen_values(_it0)"] + _sh_main("(i + 1)", _m, _shift),
+                                "unfold": _unf, "lemmas": ["val == X(i + 1)"]}},
+                  "ensures": [x.replace("out[", "result[") for x in _sh_main("len(group_key)", _m, _shift)[2:4]]},
+                 specs=_specs, setup=_late_chunkval, props=("C09", "C06", "C12", "C05"), lemma_deps=("L-cnt-bound",))
 
-# ----------------------------------------------------------------------------- _find_first_or_last_n (forward)
-register(NUMBA, "_find_first_or_last_n", "forward,mask=None",
-         {"group_key": "arr:int:int64", "ngroups": "int", "n": "int", "mask": "none", "forward": "const:True"},
-         {"requires": ["n >= 0", "ngroups >= 0", "forall(r, 0, len(group_key), group_key[r] < ngroups)", "forall(k, 0, ngroups, Cnt(k, 0) == 0)"],
-          "frozen": ["group_key"], "nonneg_index": ["out", "seen"],
-          "loops": {0: {"iter": "rng", "invariant": [
-              "forall(k, 0, ngroups, Cnt(k, _it0) >= 0 and seen[k] == minw(Cnt(k, _it0), n))",
-              "forall(k, 0, ngroups, forall(j, 0, n, implies(j < seen[k], 0 <= out[k, j] and out[k, j] < _it0 and group_key[out[k, j]] == k and Cnt(k, out[k, j]) == j) and implies(j >= seen[k], out[k, j] == -1)))"],
-              "unfold": ["forall(k, 0, ngroups, Cnt(k, _it0 + 1) == Cnt(k, _it0) + (1 if group_key[_it0] == k else 0))"]}},
-          "ensures": ["forall(k, 0, ngroups, forall(j, 0, n, implies(j < minw(Cnt(k, len(group_key)), n), 0 <= result[k, j] and result[k, j] < len(group_key) and group_key[result[k, j]] == k and Cnt(k, result[k, j]) == j) and implies(j >= minw(Cnt(k, len(group_key)), n), result[k, j] == -1)))"]},
-         specs={"Cnt": Cnt, "minw": lambda A, w: z3.If(A < w, A, w)}, props=("C15", "C06"))
+# ----------------------------------------------------------------------------- _find_first_or_last_n (forward / backward; mask / no mask)
+def _firstn_contract(masked, forward):
+    L = "len(group_key)"
+    row = "_it0" if forward else f"({L} - 1 - _it0)"
+    visit = (lambda r: r) if forward else (lambda r: f"({L} - 1 - {r})")
+    selr = (lambda r: f"mask[{r}]") if masked else (lambda r: "True")
+    visited = (lambda r: f"0 <= {r} and {r} < _it0") if forward else (lambda r: f"{L} - _it0 <= {r} and {r} < {L}")
+    col = (lambda j: j) if forward else (lambda j: f"(n - 1 - {j})")          # the backward variant returns the column-reversed view out[:, ::-1]
+    cfin = f"minw(Cnt(k, {L}), n)"
+    return {"requires": ["n >= 0", "ngroups >= 0", f"forall(r, 0, {L}, group_key[r] < ngroups)", "forall(k, 0, ngroups, Cnt(k, 0) == 0)"] + ([f"len(mask) == {L}"] if masked else []),
+            "frozen": ["group_key"] + (["mask"] if masked else []), "nonneg_index": ["out", "seen"],
+            "loops": {0: {"iter": "rng", "invariant": [
+                "forall(k, 0, ngroups, Cnt(k, _it0) >= 0 and seen[k] == minw(Cnt(k, _it0), n))",
+                f"forall(k, 0, ngroups, forall(j, 0, n, implies(j < seen[k], {visited('out[k, j]')} and group_key[out[k, j]] == k and {selr('out[k, j]')} and Cnt(k, {visit('out[k, j]')}) == j) and implies(j >= seen[k], out[k, j] == -1)))"],
+                "unfold": [f"forall(k, 0, ngroups, Cnt(k, _it0 + 1) == Cnt(k, _it0) + (1 if (group_key[{row}] == k and {selr(row)}) else 0))"]}},
+            "ensures": [f"forall(k, 0, ngroups, forall(j, 0, n, implies({col('j')} < {cfin}, 0 <= result[k, j] and result[k, j] < {L} and group_key[result[k, j]] == k and {selr('result[k, j]')} and Cnt(k, {visit('result[k, j]')}) == {col('j')}) and implies({col('j')} >= {cfin}, result[k, j] == -1)))"]}
+for _m in (False, True):
+    for _fw in (True, False):
+        register(NUMBA, "_find_first_or_last_n", f"{'forward' if _fw else 'backward'},mask={'bool' if _m else 'None'}",
+                 {"group_key": "arr:int:int64", "ngroups": "int", "n": "int", "mask": "arr:bool:bool" if _m else "none", "forward": f"const:{_fw}"}, _firstn_contract(_m, _fw),
+                 specs={"Cnt": Cnt, "minw": lambda A, w: z3.If(A < w, A, w)}, props=("C15", "C05", "C06"), lemma_deps=("L-cnt-bound",))
 
 # ----------------------------------------------------------------------------- nanops._nb_reduce (float, skipna, no initial value) against the contract of _get_first_non_null
 NANOPS = "groupby_lib/nanops.py"
